@@ -148,6 +148,28 @@ def generate(streams: core.Streams, tier: str) -> dict:
             victim["detection"]["condition"] = f"{first} or _cond_{draw}"
         kinds.add("forced_prefix_collision")
         forced = [draw] * 12
+    fmt_force = None
+    if gen.chance(w, 0.12):
+        # a regular expression with several flags under a modifier that rejects regular expressions: the
+        # load error names the value
+        docs.append({"title": "Rbadchain", "logsource": {"product": "windows"},
+                     "detection": {"sel": {"Image|re|i|m|s|" + gen.pick(w, ["base64", "contains", "windash"]): "a.*b"},
+                                   "condition": "sel"}})
+        kinds.add("regex_with_flags_under_incompatible_modifier")
+    if pipeline is not None and gen.chance(w, 0.15):
+        # two fields mapped to one name that is mapped on twice more: the tracking table of the pipeline
+        # (shown by the 'st' output format) has to follow both source fields through the chain
+        rules_only = [d for d in docs if "detection" in d and "title" in d and d["title"] != "Rbadchain"]
+        victim = gen.pick(w, rules_only)
+        victim["detection"]["both"] = {"User": "a", "Image": "b"}
+        first = next(k for k in victim["detection"] if k not in ("condition", "both"))
+        victim["detection"]["condition"] = f"{first} or both"
+        pipeline["transformations"] += [
+            {"type": "field_name_mapping", "mapping": {"User": "m.x", "Image": "m.x"}},
+            {"type": "field_name_mapping", "mapping": {"m.x": "m.y"}},
+            {"type": "field_name_mapping", "mapping": {"m.y": "m.z"}}]
+        fmt_force = "st"
+        kinds.add("mapping_chain_from_two_source_fields")
     n_filters = sum(1 for d in docs if "filter" in d)
     if not forced and n_filters >= 2 and gen.chance(f, 0.6):
         forced = ["zzzzzzzzzz"] * 12  # every filter application draws the same prefix first
@@ -161,7 +183,7 @@ def generate(streams: core.Streams, tier: str) -> dict:
             c["forced_draws"] = list(forced)
         configs.append(c)
     return {"cls": gen.pick(s, ["SimBackend", "SimBackendNE", "SimBackendIn"]),
-            "format": gen.pick(s, ["default", "default", "alt"]),
+            "format": fmt_force or gen.pick(s, ["default", "default", "alt"]),
             "validate": gen.chance(s, 0.3), "documents": docs, "pipeline": pipeline,
             "configs": configs, "kinds": sorted(kinds)}
 
